@@ -11,6 +11,9 @@ KNOWN_KEYS = set()             # keys of listed known findings of the property b
 FAIL_FAST_AFTER = 400          # violating cases per chunk after which the chunk stops exploring
 
 
+_GUARD = {"depth": 0}          # > 0 while a chunk function runs under fan_out (fail-fast armed)
+
+
 class EnoughViolations(Exception):
     """Raised by Part.violation once a chunk has seen FAIL_FAST_AFTER violating cases."""
 
@@ -59,7 +62,7 @@ class Part:
             self.unlisted_count += 1
             if key.startswith("loop"):          # a case that ran into the watchdog costs seconds
                 self.unlisted_count += FAIL_FAST_AFTER // 2
-        if self.unlisted_count >= FAIL_FAST_AFTER:
+        if self.unlisted_count >= FAIL_FAST_AFTER and _GUARD["depth"] > 0:
             # the verdict is settled; do not keep exploring a tree that is broken (a defect can
             # also make every further case slower, e.g. state that grows across calls)
             raise EnoughViolations(self)
@@ -104,11 +107,14 @@ class _Guarded:                                     # pylint: disable=too-few-pu
         self.func = func
 
     def __call__(self, chunk):
+        _GUARD["depth"] += 1
         try:
             return self.func(chunk)
         except EnoughViolations as stop:
             stop.part.count("chunks_stopped_early")
             return stop.part
+        finally:
+            _GUARD["depth"] -= 1
 
 
 def fan_out(ctx, func, chunks):
